@@ -34,6 +34,9 @@ def rpm_valid_ops(deep=False):
     # the same entry again with other values (last call wins), and a nosrc source package
     ops.append(["rpms", "Server", "x86_64", "bash-0:4.3-1.fc23.x86_64", "other/path/bash.rpm", None, "binary", BASH_SRC])
     ops.append(["rpms", "Server", "x86_64", "blob-1:2-3.nosrc.rpm", "Server/source/SRPMS/blob.nosrc.rpm", None, "source", None])
+    # an arch whose last letters are those of the '.rpm' suffix, name and srpm both given with the suffix
+    ops.append(["rpms", "Client", "x86_64", "Packages/u/uboot-tools-0:2015.10-1.armhfp.rpm", "Client/x86_64/os/Packages/u/uboot.rpm", None,
+                "binary", "uboot-tools-0:2015.10-1.src.rpm"])
     return ops
 
 
@@ -186,15 +189,18 @@ def cycle_problems(builder, obj, state):
     return problems
 
 
-def tree_dumps(hist, variant, arch, base):
+def tree_dumps(hist, queries):
+    """dump_for_tree for every (variant, arch, base) query IN SEQUENCE on ONE object built by `hist`; the manifest must not change."""
     obj = misc.set_compose(BUILDERS["extra"]["new"]())
     for op in hist:
         call(obj.add, *copy.deepcopy(op[1:]))
-    out = io.StringIO()
-    r = call(obj.dump_for_tree, out, variant, arch, base)
-    if r[0] != "ok":
-        return {"result": r[1]}
-    return {"result": "ok", "doc": json.loads(out.getvalue())}
+    before = copy.deepcopy(obj.extra_files)
+    outs = []
+    for variant, arch, base in queries:
+        out = io.StringIO()
+        r = call(obj.dump_for_tree, out, variant, arch, base)
+        outs.append({"result": r[1]} if r[0] != "ok" else {"result": "ok", "doc": json.loads(out.getvalue())})
+    return {"dumps": outs, "manifest_unchanged": obj.extra_files == before}
 
 
 # ---- exploration ----------------------------------------------------------------------------------
@@ -268,17 +274,18 @@ def run_unit(unit, acc):
             if len(full) >= 2:
                 acc.nontriv((builder, json.dumps(full)))
         if builder == "extra" and src:
-            for variant in src:
-                for arch in src[variant]:
-                    for base in BASE_PATHS:
-                        o = tree_dumps(hist, variant, arch, base)
-                        acc.ev()
-                        want = {"result": "ok", "doc": M.dump_for_tree(src, variant, arch, base)}
-                        if o != want:
-                            acc.violation("dump_for_tree", {"kind": "tree", "hist": hist, "variant": variant, "arch": arch, "base": base},
-                                          o, "dump_for_tree(%s, %s, base=%r) after %s: %s" % (variant, arch, base, hist, "; ".join(diff(o, want))))
-                        else:
-                            acc.outcome("dump_for_tree:ok")
+            queries = [[variant, arch, base] for variant in sorted(src) for arch in sorted(src[variant]) for base in BASE_PATHS]
+            queries = queries + queries[:2]                      # and the first two once more at the end
+            o = tree_dumps(hist, queries)
+            acc.ev(len(queries))
+            want = {"dumps": [{"result": "ok", "doc": M.dump_for_tree(src, v, a, b)} for v, a, b in queries], "manifest_unchanged": True}
+            if o != want:
+                bad = [q for q, x, y in zip(queries, o["dumps"], want["dumps"]) if x != y]
+                acc.violation("dump_for_tree", {"kind": "tree", "hist": hist, "queries": queries}, o,
+                              "dump_for_tree after %s: %s" % (hist, ("query %s differs from the model: %s" % (bad[0], "; ".join(diff(o["dumps"][queries.index(bad[0])], want["dumps"][queries.index(bad[0])]))))
+                                                              if bad else "the calls changed the manifest"))
+            else:
+                acc.outcome("dump_for_tree:ok")
         if len(hist) == 2:
             acc.sample({"builder": builder, "history": hist + [BUILDERS[builder]["invalid"][0][0]],
                         "expected_last": "ValueError/TypeError, manifest unchanged"}, limit=3)
@@ -286,7 +293,7 @@ def run_unit(unit, acc):
 
 def replay(case):
     if case["kind"] == "tree":
-        return tree_dumps(case["hist"], case["variant"], case["arch"], case["base"])
+        return tree_dumps(case["hist"], case["queries"])
     _, problems, _ = run_history(case["builder"], case["hist"], cycle=case.get("cycle", False))
     return {"problems": problems}
 
@@ -303,7 +310,8 @@ def describe(tier):
                 "10, extra files 5).  All histories up to the depth, deduplicated on the model state; after every call the public "
                 "mapping must equal the reference layout, an invalid call must raise ValueError/TypeError and leave a deep snapshot "
                 "of the mapping unchanged; dump_for_tree for 6 base paths (exact, trailing '/', '//', unrelated, textual non-component "
-                "prefix, empty) at every extra-files state.  Non-trivial: a history of >= 2 calls.",
+                "prefix, empty) for every cell, called in sequence on one object at every extra-files state (outputs equal the model's, the "
+                "manifest is unchanged by the calls).  Non-trivial: a history of >= 2 calls.",
         "bound": "history depth <= %d (extra files %d)" % (depth(tier), depth(tier) + 1),
         "exhaustive": True,
         "model_binding": "the layout model is stepped in lockstep with the real object on every call of every history",
